@@ -593,6 +593,7 @@ inductive MOp where
   | newRdbWriter (off size : Nat)
   | rdbAppend (chunk : Bytes)
   | rdbClose
+  | rdbFail                      -- the source's connection fails: `finishRdb(writer, err ≠ nil)`
   | newAofWriter (off : Nat)
   | aofAppend (chunk : Bytes)
   | aofClose
@@ -802,7 +803,9 @@ def Mem.appendAofLoop : Nat → Mem → Bytes → Nat → Mem × Nat × Bool
 def Mem.finishAof (s : Mem) (cur : Nat) (isCurrent : Bool) : Mem :=
   let segs1 := mUpdate s.segs cur (fun g => { g with closed := true })
   let heap1 := mUpdate s.heap cur (fun g => { g with closed := true })
-  let s1 := { s with segs := segs1, heap := heap1, aofW := if isCurrent then none else s.aofW }
+  -- a writer blocked in `ensureCapacityLocked` when it is finished gets `io.EOF` (its
+  -- `done` channel): the rest of its chunk is dropped, it is never appended later
+  let s1 := { s with segs := segs1, heap := heap1, aofW := if isCurrent then none else s.aofW, pendA := none }
   let s2 := match mFind s1.segs cur with
     | some g => if g.data.isEmpty then
         { s1 with segs := s1.segs.filter (fun x => x.sid != cur), heap := g :: s1.heap } else s1
@@ -852,9 +855,10 @@ def Mem.finishRdb (s : Mem) (failed : Bool) : Mem :=
   | some r =>
     if !r.writing then s else
     let r1 := { r with segs := mUpdate r.segs r.cur (fun g => { g with closed := true }), writing := false }
+    -- the writer is gone: a chunk it was blocked on is dropped (`io.EOF`)
     if failed || r1.written < r1.size then
-      { s with rdb := none, total := s.total - mBuffered r1.segs, heap := r1.segs ++ s.heap }
-    else { s with rdb := some r1 }
+      { s with rdb := none, total := s.total - mBuffered r1.segs, heap := r1.segs ++ s.heap, pendR := none }
+    else { s with rdb := some r1, pendR := none }
 
 /-! ### reset (`resetDataLocked`) -/
 
@@ -1004,6 +1008,8 @@ def Mem.step (s : Mem) : MOp → Mem × Out
                              segs := [first], writing := true, cur := first.sid },
                nextSid := s1.nextSid + 1 }, .ok)
   | .rdbAppend chunk =>
+    -- the writer's goroutine is blocked inside the previous append: no further append can be issued
+    if s.pendR.isSome then (s, .none) else
     let (s1, n, blocked) := Mem.appendRdbLoop (chunk.length + 1) s chunk 0
     if blocked then ({ s1 with pendR := some (chunk.drop n) }, .blocked n) else
     match s1.rdb with
@@ -1011,6 +1017,7 @@ def Mem.step (s : Mem) : MOp → Mem × Out
       if r.writing && r.written ≥ r.size then (s1.finishRdb false, .done) else (s1, .ok)
     | none => (s1, .ok)
   | .rdbClose => (s.finishRdb false, .ok)
+  | .rdbFail => (s.finishRdb true, .ok)
   | .newAofWriter off =>
     match mLastRight s.segs with
     | some r =>
@@ -1033,6 +1040,8 @@ def Mem.step (s : Mem) : MOp → Mem × Out
     match s.aofW with
     | none => (s, .errEof)
     | some _ =>
+      -- the writer's goroutine is blocked inside the previous append: no further append can be issued
+      if s.pendA.isSome then (s, .none) else
       let (s1, n, blocked) := Mem.appendAofLoop (chunk.length + 1) s chunk 0
       if blocked then ({ s1 with pendA := some (chunk.drop n) }, .blocked n) else (s1, .ok)
   | .aofClose =>
